@@ -26,23 +26,34 @@ from .. import common
 from ..common import enc, ask, HarnessError
 
 LEVEL = "proof"
-RULE = ("pairs of diagrams from one PRNG: sizes 0-7 (quick) / 0-7, 0-16, 0-40 (thorough); coordinates from lattice/half/"
+RULE = ("pairs of diagrams from one PRNG: sizes 0-7 mostly, 0-16 and 0-40 fewer (quick) / many more of each (thorough); coordinates from lattice/half/"
         "dyadic/decimal/uniform modes (lattice modes force ties), b <= d, repeated points (p=0.2), diagonal points, points "
         "shared between the two diagrams, non-finite deaths (+inf mostly, -inf/NaN rarely; sometimes a whole side), empty "
-        "sides given as [] or a (0,2) array, a global power-of-two scale 2^-40..2^40 (on top of the per-coordinate 2^-20..2^20 of the dyadic mode); non-trivial = both sides keep a finite "
+        "sides given as [] or a (0,2) array; 8% integer-valued diagrams handed over as int32/int16/uint8/int64 arrays or Python-int lists whose squared "
+        "coordinate differences leave the dtype's range (and integer-valued ordinary cases in those representations); 6% 'large offset, tiny spread' pairs "
+        "(a diagram and a perturbation of it by delta, both translated by T = 1e3..1e6 feature sizes, delta/T ~ 1e-8); a global power-of-two scale 2^-40..2^40 (on top of the per-coordinate 2^-20..2^20 of the dyadic mode); non-trivial = both sides keep a finite "
         "point and there are >= 3 finite points in total; distinct by digest of the pair")
 ASSUMPTIONS = [
     "diagrams are (n,2): births finite, deaths finite or non-finite (dropped with a warning); extra columns and non-finite births are outside the model",
-    "sklearn pairwise_distances returns the Euclidean distance up to rounding; it uses the expanded formula |x|^2-2xy+|y|^2, "
-    "which is why values are compared with tolerance 1e-9*scale (scale = largest |coordinate| times the number of summed rows); before /repo fix of the expanded-formula cancellation this had to be 1e-6",
+    "the Euclidean distances are np.sqrt(np.sum((S[:,None,:]-T[None,:,:])**2, axis=2)) — coordinate differences first (since /repo fix "
+    "6c9bac1; sklearn's expanded formula |x|^2-2xy+|y|^2 is no longer used) — i.e. the model's sqrt(dx*dx+dy*dy) operation by operation; "
+    "values are compared with tolerance 1e-9*scale (scale = largest |coordinate| times the number of summed rows)",
+    "inputs are converted with dtype=float (/repo fix dcbfa71), so the representation (list, float/integer array, Python ints) does not matter: "
+    "the model is dtype-free and receives the same numbers as exact rationals",
     "np.sum / BLAS dot agree with the model's left fold and b*(-sp)+d*cp up to rounding (inside the same tolerance)",
     "scipy.optimize.linear_sum_assignment returns a minimum-cost perfect assignment when a finite one exists: a PARAMETER of the "
     "theorem, not proved; every run certifies the optimum it is compared against with exact dual potentials checked in Lean",
     "exact-arithmetic idealisation: the theorems are over ordered fields / the reals with sqrt and cos(pi/4) given by their algebraic contracts",
 ]
 TRUSTED = ["scipy.optimize.linear_sum_assignment (contract: minimum-cost perfect assignment; certified per run, not proved)",
-           "sklearn.metrics.pairwise_distances (contract: Euclidean distance), np.cos/np.sin/np.sqrt at pi/4 and 2"]
+           "np.sqrt / np.cos / np.sin (contract: correctly rounded sqrt; cos(pi/4) = sin(pi/4) = 1/sqrt 2 up to rounding); BLAS dot for the rotation"]
 TOL = 1e-9
+# the theorems that carry clauses of the property statement; the other obligations are the steps they are proved from
+# (aug_minsum_eq_pm, rot_diag_cost, placeholder_irrelevant, …), checker/solver facts (dual_cert_sound, exhLsa_contract, …)
+# and restatements / instances
+CORE_THEOREMS = ["PersimVerif.C02.wasserstein_eq_spec_dgm",     # value = min-sum matching cost of the finite parts, every size, every solver meeting the contract
+                 "PersimVerif.C02.wasserstein_eq_spec_real",    # … at the reals with Real.sqrt, cos(pi/4), sin(pi/4): Euclid and (d-b)/sqrt 2
+                 "PersimVerif.C02.inf_dropped"]                 # non-finite deaths dropped, flagged, without influence
 EXH_MAX = 8          # M+N bound of the exhaustive model run (after the placeholder)
 SPEC_MAX = 12        # |S|+|T| bound of the exhaustive specification
 
@@ -57,8 +68,84 @@ def finite_part(d):
     return [p for p in d if math.isfinite(p[1])]
 
 
+INT_KINDS = {"int32": (-70000, 70000), "int16": (-300, 300), "uint8": (0, 255),
+             "int64": (-3100000000, 3100000000), "pyint": (-3100000000, 3100000000)}
+
+
+def gen_int_pair(ctx, nmax):
+    """integer-valued diagrams handed over in an integer representation whose SQUARED coordinate differences leave the
+    representation's range (int32 up to 7e4, int16 up to 300, uint8 up to 255 and negative differences, int64 / Python
+    ints up to 3.1e9); the model is dtype-free and receives the same numbers as exact rationals"""
+    r = ctx.rng
+    kind = r.choice(["int32", "int32", "int16", "uint8", "uint8", "int64", "pyint"])
+    lo, hi = INT_KINDS[kind]
+    if r.random() < 0.25:
+        lo, hi = max(lo, 0), min(hi, 9)                 # small values: ties, and no overflow anywhere
+    out = []
+    for _ in range(2):
+        n = r.choice([0, 1, 1, 2, 3, r.randint(0, nmax)])
+        pts = []
+        for _ in range(n):
+            if pts and r.random() < 0.2:
+                pts.append(list(pts[r.randrange(len(pts))]))
+            else:
+                b, d = sorted((r.randint(lo, hi), r.randint(lo, hi)))
+                pts.append([float(b), float(d if r.random() < 0.85 else b)])
+        out.append(pts)
+    if out[0] and r.random() < 0.3:
+        out[1] = (out[1] + [list(p) for p in out[0] if r.random() < 0.5])[:max(nmax, 1)]
+    kinds = [kind, kind] if r.random() < 0.8 else [kind, r.choice(["array", "list", "int64"])]
+    ctx.count("gen:integer_representation")
+    return {"dgm1": out[0], "dgm2": out[1], "kinds": kinds, "mode": "int", "scale_exp": 0}
+
+
+def offset_family(ctx, base, k, mode):
+    """`k` diagrams: `base` and successive tiny perturbations of it (spread delta), all translated along the
+    diagonal by an offset T = 1e3..1e6 times the feature size, with delta/T around 1e-8: close points far from
+    the origin, where an expanded-form distance |x|^2 - 2xy + |y|^2 cancels catastrophically"""
+    g, r = ctx.gen, ctx.rng
+    feat = max([1.0] + [abs(x) for p in base for x in p])
+    T = feat * 10.0 ** r.uniform(3, 6)
+    if r.random() < 0.5:
+        T = float(round(T))
+    delta = T * 1e-8 * r.uniform(0.3, 3.0)
+    fam = [[list(p) for p in base]]
+    for _ in range(k - 1):
+        nxt = []
+        for p in fam[-1]:
+            u = r.random()
+            if u < 0.08:
+                continue
+            b = p[0] + r.uniform(-1, 1) * delta
+            d = p[1] + r.uniform(-1, 1) * delta
+            nxt.append([b, max(b, d)])
+            if u > 0.94:
+                nxt.append(g.bar(mode, allow_diag=True))
+        r.shuffle(nxt)
+        fam.append(nxt)
+    sg = r.choice([1.0, 1.0, -1.0])
+    return [[[p[0] + sg * T, p[1] + sg * T] for p in d] for d in fam], T, delta
+
+
+def gen_offset_pair(ctx, nmax):
+    g, r = ctx.gen, ctx.rng
+    mode = r.choice(["unif", "dec", "lattice", "half"])
+    base = g.diagram(max(1, nmax), mode, allow_diag=True, allow_empty=False, dup=0.2)
+    (d1, d2), T, delta = offset_family(ctx, base, 2, mode)
+    if r.random() < 0.5:
+        d1, d2 = d2, d1
+    ctx.count("gen:large_offset_tiny_spread")
+    return {"dgm1": d1, "dgm2": d2, "kinds": [r.choice(["list", "array"]), r.choice(["list", "array"])], "mode": "offset",
+            "scale_exp": 0}
+
+
 def gen_pair(ctx, nmax):
     g, r = ctx.gen, ctx.rng
+    u = r.random()
+    if u < 0.08:
+        return gen_int_pair(ctx, nmax)
+    if u < 0.14:
+        return gen_offset_pair(ctx, nmax)
     mode = r.choice(["lattice", "lattice", "half", "dyadic", "dec", "unif"])
     mode2 = mode if r.random() < 0.8 else g.mode()
     d1 = g.diagram(nmax, mode, allow_diag=True, dup=0.2)
@@ -104,14 +191,38 @@ def gen_pair(ctx, nmax):
                 if allof or r.random() < 0.3:
                     p[1] = r.choice([math.inf] * 18 + [-math.inf, math.nan])
                     infs += 1
-    kinds = (r.choice(["list", "array"]), r.choice(["list", "array"]))
+    kinds = [r.choice(["list", "array"]), r.choice(["list", "array"])]
+    for i, d in enumerate((d1, d2)):            # integer-valued diagrams also travel as integer arrays / Python ints
+        if r.random() < 0.5:
+            ok = [kd for kd in INT_KINDS if kind_ok(d, kd)]
+            if ok:
+                kinds[i] = r.choice(ok) if i == 0 or kinds[0] not in ok or r.random() < 0.4 else kinds[0]
     return {"dgm1": d1, "dgm2": d2, "kinds": list(kinds), "mode": mode, "scale_exp": k}
 
 
+INT_DTYPE_RANGE = {"int32": (-2 ** 31, 2 ** 31 - 1), "int16": (-2 ** 15, 2 ** 15 - 1), "uint8": (0, 255),
+                   "int64": (-2 ** 52, 2 ** 52), "pyint": (-2 ** 52, 2 ** 52)}
+
+
+def kind_ok(d, kind):
+    """can `d` be handed over as `kind` without changing any number?"""
+    if kind in ("list", "array"):
+        return True
+    lo, hi = INT_DTYPE_RANGE[kind]
+    return all(math.isfinite(x) and x == math.floor(x) and lo <= x <= hi for p in d for x in p)
+
+
 def as_arg(d, kind):
+    """the argument handed to the real function; the model never sees the representation"""
+    if kind not in ("list", "array") and not kind_ok(d, kind):
+        kind = "array"
     if kind == "array":
         return np.array(d, dtype=float).reshape(-1, 2)
-    return [list(p) for p in d]
+    if kind == "list":
+        return [list(p) for p in d]
+    if kind == "pyint":
+        return [[int(x) for x in p] for p in d]
+    return np.array(d, dtype=float).reshape(-1, 2).astype(getattr(np, kind))
 
 
 def run_code(case):
@@ -183,6 +294,61 @@ def agree(a, b, scale):
     if scale == 0.0:        # every coordinate is 0 (or both sides empty): the value is 0 up to the code's own constants
         return abs(a - b) <= 1e-12
     return abs(a - b) <= TOL * scale
+
+
+# ----------------------------------------------------------------------------- matrix-level tie
+
+def _exact_float(q):
+    """the Fraction q is exactly a double"""
+    try:
+        return Fraction(float(q)) == q
+    except OverflowError:
+        return False
+
+
+def matrix_tie(case, Dc, Dm, ctx=None):
+    """the matrix the real routine handed to linear_sum_assignment against the model's `ws.matrix`, entry by entry:
+    the same shape and the same infinity pattern exactly (the block layout is fixed by the code, not left free by the
+    property); a distance entry must be THE correctly rounded sqrt whenever dx, dy, dx^2, dy^2 and their sum are exact
+    in double precision (then every IEEE evaluation order gives the same bits) and zero entries must be zero; other
+    distance entries within 1e-9 RELATIVE TO THE ENTRY (differences are formed before squaring), diagonal-cost entries
+    within 1e-9 * largest |coordinate| of their point.  -> None or a description of the first difference"""
+    n = len(Dm)
+    if getattr(Dc, "ndim", 0) != 2 or Dc.shape != (n, n):
+        return "shape %r, model %dx%d" % (getattr(Dc, "shape", None), n, n)
+    S, T = finite_part(case["dgm1"]) or [[0.0, 0.0]], finite_part(case["dgm2"]) or [[0.0, 0.0]]
+    M, N = len(S), len(T)
+    F = Fraction
+    for i in range(n):
+        rc, rm = Dc[i], Dm[i]
+        for j in range(n):
+            x, y = float(rc[j]), float(rm[j])
+            if math.isinf(y) or math.isinf(x) or math.isnan(x):
+                if not (x == y):
+                    return "entry (%d,%d): code %r, model %r (the infinity pattern must be identical)" % (i, j, x, y)
+                continue
+            if x == y:
+                continue
+            if i < M and j < N:
+                dx, dy = F(S[i][0]) - F(T[j][0]), F(S[i][1]) - F(T[j][1])
+                if all(_exact_float(q) for q in (dx, dy, dx * dx, dy * dy, dx * dx + dy * dy)):
+                    want = math.sqrt(float(dx * dx + dy * dy))
+                    if ctx is not None:
+                        ctx.count("matrix_tie:exact_entry_differs")
+                    return ("entry (%d,%d): code %r, model %r, correctly rounded sqrt of the exactly representable "
+                            "squared distance %r" % (i, j, x, y, want))
+                # differences are formed first, so both evaluations carry a RELATIVE error of a few ulp of the entry
+                # itself (not of the coordinates): 1e-9 relative to the entry, however far from the origin the points are
+                if not abs(x - y) <= TOL * max(abs(y), 1e-300):
+                    return "distance entry (%d,%d): code %r, model %r (relative tolerance 1e-9)" % (i, j, x, y)
+                continue
+            if i >= M and j >= N:
+                return "entry (%d,%d) of the zero block: code %r" % (i, j, x)
+            pt = S[i] if i < M else T[j]        # b*(-sp)+d*cp: the error is relative to the coordinates of this point
+            tol = TOL * max(abs(pt[0]), abs(pt[1]))
+            if not abs(x - y) <= tol:
+                return "diagonal-cost entry (%d,%d): code %r, model %r, tolerance %r" % (i, j, x, y, tol)
+    return None
 
 
 # ----------------------------------------------------------------------------- exact certificates
@@ -414,10 +580,12 @@ def sizes_of(case):
 
 
 ANCHOR = "persim/wasserstein.py"
-ANCHOR_DIGEST = "23f9a8a5b5293f05"       # structural digest of `wasserstein` when the model was written
+ANCHOR_DIGEST = "5607e8053791a606"       # structural digest of `wasserstein` the model mirrors (after /repo fixes 6c9bac1: distances from
+                                         # coordinate differences, dcbfa71: inputs converted with dtype=float)
 
 
 def run(ctx):
+    ctx.extra["core_theorems"] = CORE_THEOREMS
     cases = [dict(c) for c in CORPUS]
     digest = common.source_digest(ANCHOR, ["wasserstein"])
     ctx.extra["anchor_digest"] = {"file": ANCHOR, "now": digest, "modelled": ANCHOR_DIGEST}
@@ -425,9 +593,9 @@ def run(ctx):
     if digest != ANCHOR_DIGEST:         # rewritten code is explored harder (DESIGN.md 3.2); not a violation
         ctx.count("anchor_changed_budget_x3")
         boost = 3
-    n_small = ctx.n(2000, 36000) * boost
-    n_mid = ctx.n(0, 6000) * boost
-    n_big = ctx.n(0, 1200) * boost
+    n_small = ctx.n(3000, 36000) * boost
+    n_mid = ctx.n(150, 6000) * boost
+    n_big = ctx.n(15, 1200) * boost
     cases += [gen_pair(ctx, 7) for _ in range(n_small)]
     cases += [gen_pair(ctx, 16) for _ in range(n_mid)]
     cases += [gen_pair(ctx, 40) for _ in range(n_big)]
@@ -487,7 +655,8 @@ def run(ctx):
     cert_answers = ask(cert_lines)
 
     # 4. compare
-    for c, code, slot, cans, claimed, obs in zip(cases, codes, slots, cert_answers, claims, obs_slots):
+    deferred = []
+    for c, code, slot, cans, claimed, obs, raw in zip(cases, codes, slots, cert_answers, claims, obs_slots, observed):
         m, n, M, N = sizes_of(c)
         ans = answers[slot["matrix"]]
         model_w = (ans[0], ans[1])
@@ -532,6 +701,16 @@ def run(ctx):
             problems.append(("warnings", [c1, c2], list(model_w)))
         if not obs:
             ctx.count("lsa_call_not_observed")
+        if len(raw) == 1:
+            Dm = [[float(x) for x in row] for row in ans[2]]
+            diff = matrix_tie(c, raw[0][0], Dm, ctx)
+            ctx.count("matrix_tie:compared")
+            if not diff and np.array_equal(raw[0][0], np.array(Dm, dtype=float)):
+                ctx.count("matrix_tie:bit_identical")
+            if diff:
+                problems.append(("ws.matrix entries", diff, "model matrix %dx%d" % (len(Dm), len(Dm))))
+        elif raw:
+            ctx.count("matrix_tie:several_lsa_calls")
         for (k, oclaimed, Dc, ri, ci) in obs:
             opt = checked(cert_answers[k], oclaimed)
             nn = Dc.shape[0]
@@ -555,12 +734,20 @@ def run(ctx):
                               code=[st, v, c1, c2], model={"certified_optimum": float(certified), "warnings": list(model_w)},
                               reproduce="import persim; persim.wasserstein(%r, %r)" % (c["dgm1"], c["dgm2"]))
             else:
-                ctx.violation("code and model disagree (%s) but the property holds on this input: %s" % (op, why),
-                              {"correspondence": op, "line": lines[slot["matrix"]][:2000], "code": cv, "model": mv, "input": rcase},
-                              found_input=False)
-            if len(ctx.violations) > 5:
-                return
-    ctx.extra["tolerance"] = "1e-9 * (largest |coordinate|) * (rows of the augmented matrix)"
+                # a correspondence break on an input where the property holds: keep looking for a failing input among
+                # the remaining cases (DESIGN 3.3); reported as `no-failing-input-found` only if none turns up
+                ctx.count("correspondence_break_property_holds")
+                if len(deferred) < 3:
+                    deferred.append(("code and model disagree (%s: code %s, model %s) but the property holds on this input: %s"
+                                     % (op, str(cv)[:300], str(mv)[:120], why),
+                                     {"correspondence": op, "line": lines[slot["matrix"]][:2000], "code": cv, "model": mv, "input": rcase}))
+            if len(ctx.violations) > 5 or ctx.counters.get("correspondence_break_property_holds", 0) >= 150:
+                break                       # (each evaluation of the specification costs driver calls)
+    if deferred and not any(found for _, found in ctx.violations):
+        for what, rec_ in deferred:
+            ctx.violation(what, rec_, found_input=False)
+    ctx.extra["tolerance"] = ("value: 1e-9 * (largest |coordinate|) * (rows of the augmented matrix); matrix entries: distance entries exact "
+                              "where the arithmetic is exact, else 1e-9 relative to the entry; diagonal-cost entries 1e-9 * |coordinates of the point|")
 
 
 def _parse_dgm(d):
@@ -582,7 +769,8 @@ def replay(ctx, rep):
 
 
 MANIFEST = {
-    "text": "Proof: Lean theorems about the line-by-line model of persim.wasserstein.wasserstein over every ordered field (and at the "
+    "text": "Proof (23 theorems, of which 3 are the core statements: wasserstein_eq_spec_dgm, wasserstein_eq_spec_real, inf_dropped; the "
+            "rest are the steps they are proved from, checker/solver facts, restatements and instances): Lean theorems about the line-by-line model of persim.wasserstein.wasserstein over every ordered field (and at the "
             "reals with Real.sqrt, cos(pi/4)): the augmented (M+N)x(M+N) matrix has the same minimum over perfect assignments as the "
             "sum cost has over all partial matchings (explicit map partial matching <-> finite perfect assignment; the zero block "
             "contributes 0), the second rotated coordinate is (d-b)/sqrt 2, the (0,0) placeholder of an empty side never changes the "
@@ -593,10 +781,14 @@ MANIFEST = {
             "an optimum certified by exact rational dual potentials that a Lean-proved checker (dual_cert_sound/dualCheck_sound, weak "
             "duality) accepts, and with the model's exhaustive optimum when M+N<=8 (the exhaustive solver is itself proved to meet the "
             "contract, exhLsa_contract, so that value is the specification's by theorem). sqrt and cos(pi/4)=sin(pi/4) are parameters with "
-            "their algebraic contracts (sqrt x >= 0, sqrt x * sqrt x = x for x >= 0; c >= 0, c*c = 1/2), instantiated at the reals.",
+            "their algebraic contracts (sqrt x >= 0, sqrt x * sqrt x = x for x >= 0; c >= 0, c*c = 1/2), instantiated at the reals. The tie also "
+            "compares the matrix the real routine hands to scipy ENTRY BY ENTRY with the model's (same infinity pattern; distance entries exact "
+            "where the arithmetic is exact, else 1e-9 relative to the entry), and feeds the arguments in every representation (lists, float and "
+            "int32/int16/uint8/int64 arrays, Python ints) — the model is dtype-free.",
     "note": "Trusted: Lean kernel + Mathlib (axioms propext/Classical.choice/Quot.sound); the correspondence harness; scipy's "
-            "linear_sum_assignment contract (certified per run, not proved); sklearn pairwise_distances = Euclidean distance up to "
-            "rounding (tolerance 1e-9*scale); IEEE rounding is outside the theorems. [T] lsa_contract: every "
+            "linear_sum_assignment contract (certified per run, not proved); np.sqrt of the summed squared coordinate differences = "
+            "Euclidean distance up to rounding (tolerance 1e-9*scale; the matrix handed to scipy is compared ENTRY BY ENTRY with the "
+            "model's: same infinity pattern, exact where the arithmetic is exact); IEEE rounding is outside the theorems. [T] lsa_contract: every "
             "matrix the real routine hands to scipy is observed in-process and the assignment scipy returned is compared with that "
             "matrix's optimum, certified by the same Lean-checked dual certificate.",
     "technique": "Lean 4 theorems over a hand-written model with the solver as a contract parameter + differential correspondence "
